@@ -4,9 +4,14 @@ from . import deck as D
 from . import gen_geom as G
 
 
-def _plane_surf(d, n, off):
-    """add a plane card n·x = off choosing the most specific mnemonic; returns the surface id"""
+def _plane_surf(d, n, off, rng=None, flip_p=0.25):
+    """add a plane card n·x = off choosing the most specific mnemonic; returns the surface id times the sign to
+    give it so that the reference means what `sid` would mean for the normal `n` (the card is sometimes written
+    with the opposite normal, -n·x = -off, which exchanges the two sides)"""
     sid = max([s.id for s in d.surfs], default=0) + 1
+    if rng is not None and rng.random() < flip_p:
+        d.surfs.append(D.Surf(sid, 'p', [-x + 0.0 for x in n] + [-off + 0.0]))
+        return -sid
     ax = [i for i in range(3) if n[i] != 0]
     if len(ax) == 1 and n[ax[0]] == 1.0:
         d.surfs.append(D.Surf(sid, ['px', 'py', 'pz'][ax[0]], [off]))
@@ -36,8 +41,8 @@ def add_lattice_universe(d, rng, u, next_id, new_universe, kind=None, lat_tr_p=0
         for n in normals:
             c0 = sum(a * b for a, b in zip(n, centre))
             w = rng.choice([1.0, 1.5, 2.0])
-            hi = _plane_surf(d, n, c0 + w)
-            lo = _plane_surf(d, n, c0 - w)
+            hi = _plane_surf(d, n, c0 + w, rng)
+            lo = _plane_surf(d, n, c0 - w, rng)
             # (first-listed, second-listed): either order; cell is between: -hi +lo
             pair = [('s', -hi), ('s', lo)]
             if rng.random() < 0.5:
@@ -61,8 +66,8 @@ def add_lattice_universe(d, rng, u, next_id, new_universe, kind=None, lat_tr_p=0
         pairs = []
         for n in dirs:
             c0 = sum(a * b for a, b in zip(n, centre))
-            hi = _plane_surf(d, n, c0 + rr)
-            lo = _plane_surf(d, n, c0 - rr)
+            hi = _plane_surf(d, n, c0 + rr, rng)
+            lo = _plane_surf(d, n, c0 - rr, rng)
             pairs.append([('s', -hi), ('s', lo)])
         # MCNP order: side 1, its opposite, side 2 (adjacent choice), its opposite, the last two in any order
         first = rng.randrange(3)
@@ -81,8 +86,8 @@ def add_lattice_universe(d, rng, u, next_id, new_universe, kind=None, lat_tr_p=0
             n = P([0.0, 0.0, 1.0])
             c0 = sum(a * b for a, b in zip(n, centre))
             h = rng.choice([1.0, 2.0])
-            hi = _plane_surf(d, n, c0 + h)
-            lo = _plane_surf(d, n, c0 - h)
+            hi = _plane_surf(d, n, c0 + h, rng)
+            lo = _plane_surf(d, n, c0 - h, rng)
             pz = [('s', -hi), ('s', lo)]
             if rng.random() < 0.5:
                 pz.reverse()
